@@ -44,6 +44,7 @@ REQUIRED = ["branches_checked", "paths_checked", "tips_checked", "furcations_che
             "node_predicates_checked", "node_branch_checked", "branch_tree_checked",
             "branch_tree_memory_probed", "longest_path_checked", "root_one_child_trees",
             "derived_trees_checked", "negative_position_handles", "relinked_through_callers_array",
+            "fan_outs_of_256_and_more", "size_sweep_cases",
             "tap_get_branches", "tap_from_tree"]
 FLOOR = {"quick": 550, "thorough": 50000}
 SHARDS = {"quick": 8, "thorough": 16}
@@ -341,6 +342,24 @@ def run(ctx):
                                                    "edit-callers-array"]))
                 case["dseed"] = int(rng.integers(0, 2**31 - 1))
             ctx.case(case, nontrivial=rc["n"] >= 3, klass=rc["shape"] + "/" + rc["numbering"])
+            execute(ctx, case)
+        # fan-outs no random tree reaches: exactly 255 / 256 / 257 / 512 / 513 children at the root
+        # and at an interior node; and node counts on / next to powers of two, big branched trees
+        fam = [("star", k + 1) for k in (255, 256, 257, 512, 513)] + \
+              [("hub", k + 3) for k in (255, 256, 257, 512, 513)]
+        for j, (shape, n_) in enumerate(fam):
+            if j % ctx.nshards != ctx.shard:
+                continue
+            rc = {"shape": shape, "n": n_, "numbering": "perm" if j % 2 else "sorted",
+                  "geom": "gauss", "types": "soma", "extras": 0, "seed": 100 + j}
+            case = {"tree": rc}
+            ctx.case(case, klass="fan-out/" + shape)
+            ctx.count("fan_outs_of_256_and_more")
+            execute(ctx, case)
+        for j, rc in enumerate(G.sweep_recipes(ctx, max_small=2050)):  # (per-node predicates: O(n^2))
+            case = {"tree": rc}
+            ctx.case(case, klass="size-sweep")
+            ctx.count("size_sweep_cases")
             execute(ctx, case)
         for j, rc in enumerate(G.real_recipes(rng, 1000 if ctx.quick else None)):
             if j % ctx.nshards == ctx.shard:
